@@ -103,8 +103,11 @@ prop('C17',
      units=[
          dict(harness='c17_store_records', covers=['c17.put', 'c17.get'], min_paths=500, split=6,
               params={'quick': {'steps': 3}, 'thorough': {'steps': 4}}, conform={'quick': 60, 'thorough': 500}, nvals=30),
+         dict(harness='c17_store_providers', covers=['c17p.put', 'c17p.get', 'c17p.expire'], min_paths=1000, split=5,
+              params={'quick': {'steps': 3}, 'thorough': {'steps': 3, 'all_address_counts': 1}}, conform={'quick': 60, 'thorough': 500}, nvals=30),
      ],
-     bounds={'ops': 'quick 3, thorough 4', 'keys': 2, 'max_records': '0..2', 'value length': '<= 64 symbolic'},
+     bounds={'ops': 'quick 3, thorough 4', 'keys': 2, 'max_records': '0..2', 'value length': '<= 64 symbolic',
+             'provider keys bound': '0..2', 'providers per key bound': '1..2', 'addresses per provider bound': '0..2', 'providers': 3},
      outside=['provider refresh timer stream'],
      )
 
@@ -155,4 +158,23 @@ prop('C06',
      bounds={'peers': 2, 'limits': 'inbound None/0/1, outbound None/1/2', 'history steps': 'quick 3, thorough 4', 'one-step': 'quick 1, thorough 2 steps from an arbitrary state',
              'ghost connections of unmodelled peers': 'inbound 0..1, outbound 0..2'},
      outside=['accept_pending/reject_pending socket handling inside the transports', 'TransportManager::next glue (replicated in the harness)'],
+     )
+
+prop('C14',
+     explanation='Bounded model checking of the real RoutingTable / KBucket / ClosestBucketsIter code (keys are the real SHA-256 of the peer ids, '
+                 'computed exactly by the hash model) against a brute-force reference: update histories over peers in several buckets followed by '
+                 'closest() lookups, and a full 20-peer bucket under re-adds, connections and overflow.',
+     units=[
+         dict(harness='c14_table_ops', covers=['c14.add', 'c14.established', 'c14.dial-failure', 'c14.add-local', 'c14.closest'], min_paths=500,
+              split={'quick': 3, 'thorough': 4}, params={'quick': {'steps': 2}, 'thorough': {'steps': 3}}, conform={'quick': 40, 'thorough': 300}, nvals=16,
+              time_cap={'quick': 1500, 'thorough': 14000}),
+         dict(harness='c14_bucket_full', covers=['c14.full.readd', 'c14.full.connect', 'c14.full.displace', 'c14.full.noslot'], min_paths=100,
+              split={'quick': 3, 'thorough': 4}, params={'quick': {'steps': 2}, 'thorough': {'steps': 3}}, conform={'quick': 40, 'thorough': 300}, nvals=16,
+              time_cap={'quick': 1500, 'thorough': 14000}),
+     ],
+     assumptions=['A-SHA: no stored key is at XOR distance < 2 from the local key (bucket 0 is empty); with crafted keys ClosestBucketsIter visits bucket 0 twice',
+                  'PeerId::random() (placeholder of a vacant slot) returns an id different from all harness ids'],
+     bounds={'peer pool': '4 ids over buckets 255/255/254/250 (table ops); 22 ids of bucket 255 (full bucket)', 'steps': 'quick 2, thorough 3',
+             'closest targets': 'a stored key, a foreign key, the local key; k in 1..2 and 8/30'},
+     outside=['all 2^256 targets / all bucket indices (only the concrete targets above are walked)', 'KademliaPeer::push_addresses address bounds'],
      )
